@@ -430,7 +430,7 @@ func (cl *cluster) key() string {
 	if len(cl.cleanerStuck) > 0 {
 		fmt.Fprintf(&b, "STUCK %v\n", cl.cleanerStuck)
 	}
-	fmt.Fprintf(&b, "B %v sticky=%v task=%s adds=%v xferfail=%v%v/%d fiemapfail=%v/%d\n", bl, cl.stickyREST, cl.taskDesc(), pa, cl.failXfer, cl.killXfer, cl.cnt["transfers_failed"], cl.failFiemap, cl.cnt["fiemap_failures_injected"])
+	fmt.Fprintf(&b, "B %v sticky=%v task=%s adds=%v xferfail=%v%v%v%v/%d fiemapfail=%v/%d\n", bl, cl.stickyREST, cl.taskDesc(), pa, cl.failXfer, cl.killXfer, cl.restartAgent, cl.agentOutage, cl.cnt["transfers_failed"], cl.failFiemap, cl.cnt["fiemap_failures_injected"])
 	var ack []string
 	for id := 1; id <= cl.nWrites; id++ {
 		ack = append(ack, fmt.Sprintf("%v@%d", cl.acked[id] && !cl.undone[id], blockOf(id)))
@@ -704,6 +704,10 @@ func (cl *cluster) enabled() []string {
 		case "XferKill":
 			if c.RealAgent && cl.task != nil && !cl.task.done && !cl.failXfer && !cl.killXfer && faultsLeft(1) && cl.cnt["transfers_failed"] == 0 {
 				out = append(out, "XferKill")
+			}
+		case "AgentRestart":
+			if c.RealAgent && cl.task != nil && !cl.task.done && !cl.failXfer && !cl.killXfer && !cl.restartAgent && faultsLeft(1) && cl.cnt["transfers_failed"] == 0 {
+				out = append(out, "AgentRestart")
 			}
 		case "XferFail":
 			if cl.task != nil && !cl.task.done && (cl.task.kind == "rebuild" || cl.task.kind == "clone") && !cl.failXfer && faultsLeft(1) && cl.cnt["transfers_failed"] == 0 {
